@@ -7,7 +7,7 @@ The Lean side is C02's model with the region test (`Model.C11.findRestricted`); 
 `Properties/C11.lean` say it equals the unrestricted run filtered by "some own pixel centre is inside".
 WCS and HEALPix are oracles: for every case the harness evaluates
 
-        inside[r, c] = region.sky_within(*wcs.wcs.wcs_pix2world([[c, r]], 0)[0], degin=True)
+        inside[r, c] = region.sky_within(*wcs.wcs.all_pix2world([[c, r]], 0)[0], degin=True)
 
 (the centre of numpy pixel [r, c] is the 0-based FITS pixel (c, r)) and ships the bit mask to the driver.
 
@@ -286,7 +286,7 @@ def oracle_inside(wcs, reg, H, W):
     xy = np.stack([cc.ravel(), rr.ravel()], axis=1).astype(float)
     with warnings.catch_warnings():
         warnings.simplefilter('ignore')
-        sky = wcs.wcs.wcs_pix2world(xy, 0)
+        sky = wcs.wcs.all_pix2world(xy, 0)     # the full pixel -> sky transformation (core WCS + SIP / distortions)
     ra, dec = sky[:, 0], sky[:, 1]
     ins = np.asarray(reg.sky_within(ra, dec, degin=True), dtype=bool)
     # a pixel whose centre has NO sky position (beyond the limb of a hemispheric / all-sky projection) is never
@@ -358,7 +358,8 @@ def finish_sky_case(kind, im, vals, spec, wcs, extra):
     ins, stable = oracle_inside(wcs, make_region(spec), H, W)
     if not stable:
         return None
-    return base.mk_case(kind, im, np.zeros_like(im), np.ones_like(im), 4.0, 5.0, inside=ins,
+    return base.mk_case(kind, im, extra.pop('bkg', np.zeros_like(im)), extra.pop('rms', np.ones_like(im)),
+                        extra.pop('flood', 4.0), extra.pop('seed', 5.0), inside=ins,
                         extra=dict(dict(stream='sky', header=vals, region=spec, region_kind=extra.pop('region_kind'),
                                         off_sky_inside=_history['off_sky_inside']), **extra))
 
@@ -422,6 +423,40 @@ def gen_limb_case(rng, k=0):
     return finish_sky_case('limb', im, vals, spec, wcs, dict(region_kind='polar-cap-' + proj))
 
 
+def gen_sip_case(rng, k=0):
+    """alternative standard header spelling: TAN-SIP with a quadratic distortion of 1-3 pixels across the image.
+    The sky position of a pixel centre is the FULL transformation (all_pix2world), which is what the rest of Aegean
+    (WCSHelper.pix2sky) uses for source positions."""
+    kind = ['bars', 'lshape', 'random', 'inbox'][rng.integers(0, 4)]
+    H, W = int(rng.integers(8, 15)), int(rng.integers(8, 15))
+    flood = float(rng.choice(base.FLOODS))
+    seed = flood + float(rng.choice(base.SEED_STEPS))
+    on = base.pattern(rng, H, W, kind)
+    im, bkg, rms = base.realise(rng, on, flood, seed, 0.5, zero_mode=0, nan_mode=0)
+    cd = 0.01
+    vals = dict(NAXIS=2, NAXIS1=W, NAXIS2=H, CTYPE1='RA---TAN-SIP', CTYPE2='DEC--TAN-SIP',
+                CRVAL1=float(rng.uniform(5, 355)), CRVAL2=float(rng.uniform(-60, 60)), CDELT1=-cd, CDELT2=cd,
+                CRPIX1=1.0, CRPIX2=1.0, BMAJ=3 * cd, BMIN=3 * cd, BPA=0.0,
+                A_ORDER=2, B_ORDER=2, A_2_0=float(rng.choice([-1, 1]) * rng.uniform(0.01, 0.03)), A_0_2=0.0, A_1_1=0.0,
+                B_2_0=0.0, B_0_2=float(rng.choice([-1, 1]) * rng.uniform(0.01, 0.03)), B_1_1=float(rng.uniform(-0.01, 0.01)))
+    wcs, ra, dec = sky_of_full(vals, H, W)
+    r0, c0 = int(rng.integers(H // 2, H)), int(rng.integers(W // 2, W))     # far from CRPIX: large distortion
+    spec = dict(shape='circle', ra=float(ra[r0, c0]), dec=float(dec[r0, c0]), radius=float(cd * rng.uniform(0.8, 4)),
+                depth=int(rng.choice([12, 13])))
+    return finish_sky_case(kind, im, vals, spec, wcs, dict(region_kind='circle-sip', sip=True, bkg=bkg, rms=rms,
+                                                           flood=flood, seed=seed))
+
+
+def sky_of_full(vals, H, W):
+    from AegeanTools.wcs_helpers import WCSHelper
+    with warnings.catch_warnings():
+        warnings.simplefilter('ignore')
+        wcs = WCSHelper.from_header(header_from_vals(vals))
+        rr, cc = np.mgrid[0:H, 0:W]
+        sky = wcs.wcs.all_pix2world(np.stack([cc.ravel(), rr.ravel()], axis=1).astype(float), 0)
+    return wcs, sky[:, 0].reshape(H, W), sky[:, 1].reshape(H, W)
+
+
 def impl_sky(c):
     from AegeanTools.wcs_helpers import WCSHelper
     im, bkg, rms, flood, seed, inside = base.arrays(c)
@@ -483,7 +518,7 @@ def evaluate(ctx, cases, use_lean=True):
         base.judge(ctx, 'C11', c, impl, model)
         for f in ctx.failures[n0:]:      # make the signature say which stream / kind of region
             if f['kind'] == 'spec':
-                f['signature'] = dict(f['signature'], stream=c.get('stream'))
+                f['signature'] = dict(f['signature'], stream=c.get('stream'), sip=bool(c.get('sip')))
         # metamorphic, implementation only: a whole-image region changes nothing
         if c.get('region_kind') == 'all' and not isinstance(impl, str):
             im, bkg, rms, flood, seed, inside = base.arrays(c)
@@ -523,6 +558,10 @@ def run(ctx):
     # projections with islands spilling over the limb and polar-cap regions
     for k in range(5 if ctx.quick else 40):
         c = gen_big_island_case(rng, k + ctx.seed)
+        amb += c is None
+        cases += [c] if c is not None else []
+    for k in range(40 if ctx.quick else 600):       # alternative standard header spelling: SIP
+        c = gen_sip_case(rng, k)
         amb += c is None
         cases += [c] if c is not None else []
     for k in range(6 if ctx.quick else 60):
@@ -615,7 +654,7 @@ def cli_components(ctx, image, mimpath, flood, seed):
 def finder_region_one(ctx, c):
     """one image + one region, through the public entry points, every route compared with the filtered
     unrestricted run: routes 'object' (mask=Region), 'file' (mask=<the one working .mim path>, rewritten
-    with this case's region), 'cli' (aegean main --region <same path> --table)"""
+    with this case's region), 'pathlib' / 'bytes' (the same path as pathlib.Path / bytes), 'cli' (aegean main --region <same path> --table)"""
     from astropy.io import fits
     from astropy.wcs import WCS
     im, bkg, rms, flood, seed, _ = base.arrays(c)
@@ -690,7 +729,15 @@ def finder_region_one(ctx, c):
                            f"(identical values) of the islands of the unrestricted run with an own pixel inside the region")
             else:
                 # the mask is a separate object with exactly the history we give it (never the oracle's object)
-                mask_arg = make_region(c['region'], hist) if route == 'object' else write_workfile(ctx, c['region'], hist)
+                if route == 'object':
+                    mask_arg = make_region(c['region'], hist)
+                else:
+                    mask_arg = write_workfile(ctx, c['region'], hist)      # 'file': the path as a str
+                    if route == 'pathlib':                                # the same file named by an os.PathLike object
+                        import pathlib
+                        mask_arg = pathlib.Path(mask_arg)
+                    elif route == 'bytes':                                # … or by a bytes path
+                        mask_arg = os.fsencode(mask_arg)
                 comps1, isles1 = base.finder_sources(path, flood, seed, mask=mask_arg)
                 ncomp = len(comps1)
                 got_set = set(isles1.values())
@@ -742,6 +789,10 @@ def routes_for(ctx, k):
     """every case goes through the working file (so consecutive cases rewrite the same path with different
     discs / holes / depths) interleaved with Region-object runs of the same region; thorough adds the CLI"""
     r = ['file', 'object'] if k % 2 == 0 else ['object', 'file']
+    if k % 3 == 1:
+        r.append('pathlib')         # type variants of the file-name argument
+    if k % 4 == 2:
+        r.append('bytes')
     if not ctx.quick and k % 3 == 0:
         r.append('cli')
     return r
